@@ -8,8 +8,8 @@ open Driver Impl.Comb
 `a f t <mich>` atom · `p f t <l> <r>` pair · `n f t` None · `s f t <v>` Some · `l f t <v>` Left · `r f t <v>` Right · `q<k> f t <v>…` list
 
   iter <0|1> <val>            → ok <k> <val>…
-  get <n> <val>               → ok 1 <val> | err        (GET n on the stack [val])
-  upd <n> <elem> <val>        → ok 1 <val> | err        (UPDATE n on the stack [elem, val])
+  get <n> <val>               → ok 1 <val> | err        (GET n on the stack [val]; val of any type — GET 0 is the identity)
+  upd <n> <elem> <val>        → ok 1 <val> | err        (UPDATE n on the stack [elem, val]; any types — UPDATE 0 leaves elem)
   unpairn <n> <val>           → ok <k> <val>… | err     (UNPAIR n)
   pairn <n> <k> <val>…        → ok <k'> <val>… | err    (PAIR n on a stack of k values)
   mich <val>                  → <mich> | err            (to_micheline_value('optimized'))
@@ -89,7 +89,8 @@ def readInstr (t : String) : Option Instr :=
   | ["DROP"] => some .drop
   | _ => none
 
-def run (prog : List Instr) (st : List CVal) : String := outVals (exec chkIter chkUnpairn prog st)
+/-- flags of the source under test: annotation tests of the two traversals, index-first shape of GET n / UPDATE n -/
+def run (prog : List Instr) (st : List CVal) : String := outVals (exec chkIter chkUnpairn zeroGet zeroUpd prog st)
 
 def handle (line : String) : String :=
   let bad := "bad-op"
